@@ -1,7 +1,9 @@
 package esib
 
 import (
+	"go/token"
 	"go/types"
+	"sort"
 	"strings"
 )
 
@@ -119,8 +121,25 @@ func (x *extractor) simplify(list []*node, inLoop bool) []*node {
 			if m.cond.kind == "unknown" && (hasGroupOps(m.body) || hasGroupOps(m.els)) {
 				x.problem(n.pos, "unrecognised guard around group operations")
 			}
-			x.canonIf(&m)
-			out = append(out, &m)
+			if m.cond.kind == "dig" {
+				// case analysis on the sign of one digit: canonical sign switch,
+				// merged with an adjacent one on the same digit
+				group := []*node{&m}
+				if k := len(out) - 1; k >= 0 && out[k].kind == "if" && out[k].cond.kind == "dig" && sameDigit(out[k].cond.dig, m.cond.dig) {
+					group = []*node{out[k], &m}
+					out = out[:k]
+				}
+				out = append(out, x.signSwitch(group, m.cond.dig, n.pos)...)
+			} else {
+				x.canonIf(&m)
+				if d := switchDigit(m.body, m.els); d != nil {
+					// a flag (or length) guard around sign switches on one digit:
+					// the case analyses commute; the digit goes outermost
+					out = append(out, x.signSwitch([]*node{&m}, d, n.pos)...)
+				} else {
+					out = append(out, &m)
+				}
+			}
 			last = nil
 			continue
 		case "loop":
@@ -215,6 +234,123 @@ func (x *extractor) canonIf(m *node) {
 		m.cond = x.join("and", m.cond, inner.cond)
 		m.body = inner.body
 	}
+}
+
+// signSwitch rewrites a statement list that starts a case analysis on the
+// sign of digit d — any tree of guards d>0, d<0, d!=0, d==0, d>=0, d<=0, in any
+// nesting, polarity or arm order — as the canonical chain
+//
+//	if d>0 {P} else {if d<0 {N} else {if d==0 {Z}}}
+//
+// (empty cases omitted), where P, N, Z are the statements executed for a
+// positive, negative and zero digit.  Recoded digits are never written after
+// the recoding, so the residual of a guard under a known sign is exact.
+func (x *extractor) signSwitch(list []*node, d *sval, pos token.Pos) []*node {
+	type arm struct {
+		rel  string
+		body []*node
+	}
+	var arms []arm
+	for _, a := range []struct {
+		rel  string
+		sign int
+	}{{">0", 4}, {"<0", 1}, {"==0", 2}} {
+		if b := x.specialise(list, d, a.sign); len(b) > 0 {
+			arms = append(arms, arm{a.rel, b})
+		}
+	}
+	var chain []*node
+	for i := len(arms) - 1; i >= 0; i-- {
+		dc := *d
+		chain = []*node{{kind: "if", pos: pos, cond: &cond{kind: "dig", dig: &dc, rel: arms[i].rel}, body: arms[i].body, els: chain}}
+	}
+	return chain
+}
+
+// switchDigit returns d if every non-empty branch is exactly one sign switch
+// on the same digit d.
+func switchDigit(branches ...[]*node) *sval {
+	var d *sval
+	for _, b := range branches {
+		if len(b) == 0 {
+			continue
+		}
+		if len(b) != 1 || b[0].kind != "if" || b[0].cond == nil || b[0].cond.kind != "dig" {
+			return nil
+		}
+		if d != nil && !sameDigit(d, b[0].cond.dig) {
+			return nil
+		}
+		d = b[0].cond.dig
+	}
+	return d
+}
+
+// restrict evaluates c under the knowledge that digit d has the given sign
+// (bit set as in signSet).  known reports that c is decided.
+func (x *extractor) restrict(c *cond, d *sval, sign int) (res *cond, known, val bool) {
+	switch c.kind {
+	case "dig":
+		if sameDigit(c.dig, d) {
+			return nil, true, signSet(c.rel)&sign != 0
+		}
+	case "and", "or":
+		var rest []*cond
+		for _, q := range c.sub {
+			r, k, v := x.restrict(q, d, sign)
+			switch {
+			case k && v == (c.kind == "or"):
+				return nil, true, v // a true operand of or / a false operand of and
+			case k:
+			default:
+				rest = append(rest, r)
+			}
+		}
+		if len(rest) == 0 {
+			return nil, true, c.kind == "and"
+		}
+		return x.join(c.kind, rest...), false, false
+	}
+	return c, false, false
+}
+
+// specialise returns the statements of list executed when digit d has the
+// given sign.
+func (x *extractor) specialise(list []*node, d *sval, sign int) []*node {
+	var out []*node
+	for _, n := range list {
+		if n.kind == "if" && n.cond != nil {
+			r, known, val := x.restrict(n.cond, d, sign)
+			if known {
+				if val {
+					out = append(out, x.specialise(n.body, d, sign)...)
+				} else {
+					out = append(out, x.specialise(n.els, d, sign)...)
+				}
+				continue
+			}
+			m := *n
+			m.cond = r
+			m.body, m.els = x.specialise(n.body, d, sign), x.specialise(n.els, d, sign)
+			if len(m.body)+len(m.els) == 0 {
+				continue
+			}
+			x.canonIf(&m)
+			out = append(out, &m)
+			continue
+		}
+		if len(n.body)+len(n.els) == 0 {
+			out = append(out, n)
+			continue
+		}
+		m := *n
+		m.body, m.els = x.specialise(n.body, d, sign), x.specialise(n.els, d, sign)
+		if len(m.body)+len(m.els) == 0 {
+			continue
+		}
+		out = append(out, &m)
+	}
+	return out
 }
 
 func onlyBranches(list []*node) bool {
@@ -467,12 +603,54 @@ func (x *extractor) identPass(list []*node, st identState) []*node {
 	return out
 }
 
+// sortDecls orders every run of adjacent declarations (recodings, table
+// constructions, and loops / length guards that contain nothing else): they
+// read scalars and points, write only fresh locals, and so commute with each
+// other — but not with a group operation, which may write a point they read
+// (a run never extends across one).  The sort key is the printed form of the
+// declaration under a fresh printer, which does not depend on the context.
+func (x *extractor) sortDecls(list []*node) []*node {
+	out := make([]*node, 0, len(list))
+	for _, n := range list {
+		if len(n.body)+len(n.els) > 0 {
+			m := *n
+			m.body, m.els = x.sortDecls(n.body), x.sortDecls(n.els)
+			n = &m
+		}
+		out = append(out, n)
+	}
+	key := func(n *node) string {
+		p := &printer{x: x, nm: newNamer(x.sym), classes: map[types.Object]int{}, recs: map[*recoding]int{}, canon: func(s string) string { return s }}
+		return p.node(n)
+	}
+	for i := 0; i < len(out); {
+		j := i
+		for j < len(out) && declOnly(out[j]) {
+			j++
+		}
+		if j-i > 1 {
+			run := out[i:j]
+			keys := map[*node]string{}
+			for _, n := range run {
+				keys[n] = key(n)
+			}
+			sort.SliceStable(run, func(a, b int) bool { return keys[run[a]] < keys[run[b]] })
+		}
+		if j == i {
+			j++
+		}
+		i = j
+	}
+	return out
+}
+
 func (sk *Skeleton) normalize() {
 	x := sk.x
 	if x == nil {
 		return
 	}
 	n := x.simplify(sk.raw, false)
+	n = x.sortDecls(n)
 	n = x.mergeD(n)
 	n = x.identPass(n, identState{})
 	n = x.mergeD(n)
@@ -655,7 +833,14 @@ func (p *printer) node(n *node) string {
 		return "as " + n.desc
 	case "scan":
 		var srcs []string
-		srcs = append(srcs, n.srcs...)
+		for _, d := range n.srcDigs {
+			k := p.rec(d.rec)
+			if d.term != nil {
+				k += "[]"
+			}
+			srcs = append(srcs, k)
+		}
+		sort.Strings(srcs)
 		p.nm.names[n.v] = "top"
 		return "top:=scan(" + strings.Join(srcs, ",") + " in " + p.nm.lin(n.from) + ".." + p.nm.lin(n.to) + ")"
 	case "call":
